@@ -107,6 +107,11 @@ EXEC_POSITIONS = [
     ("value-subscript", "x='a[$({Xq})]'; echo ${b[x]}"), ("value-for", "for x in 'a[$({Xq})]'; do echo $((x)); done"),
     ("value-read", "read x <<< 'a[$({Xq})]'; echo $((x))"), ("value-prefix", "x='a[$({Xq})]' eval 'echo $((x))'"),
     ("value-indirect", "x='a[$({Xq})]'; y=x; echo $((y))"), ("value-substr", "x='a[$({Xq})]'; v=abc; echo ${v:x}"),
+    # variables that decide WHICH program a name runs (the jail has ../evilbin with the same names, logged as evil:<name>)
+    ("env-path", "PATH=../evilbin:$PATH {X}"), ("env-path-seq", "PATH=../evilbin:$PATH; {X}"), ("env-path-append", "PATH+=:../evilbin; PATH=${PATH#*:}; {X}"),
+    ("env-path-two", "A=1 PATH=../evilbin B=2 {X}"), ("env-path-sub", "( PATH=../evilbin:$PATH; {X} )"), ("env-path-fn", "f() { PATH=../evilbin:$PATH; {X}; }; f"),
+    ("env-path-env", "env PATH=../evilbin {X}"), ("env-path-export", "export PATH=../evilbin:$PATH; {X}"), ("env-path-declare", "declare -x PATH=../evilbin; {X}"),
+    ("env-path-hash", "hash -p ../evilbin/ls ls; {X}"), ("env-bashenv", "echo '{Xq}' > out/rc; BASH_ENV=out/rc bash -c ls"), ("env-ps4", "PS4='$({Xq})'; set -x; ls"),
     # ... and the OUTPUT of a command substitution inside an arithmetic expansion (data the analyser cannot see: known finding)
     ("value-output", "echo $(($(echo 'a[$({Xq})]')))"),
 ]
